@@ -89,7 +89,13 @@ def run_one(srv_asan, plain_exe, part, text, stratum, npop, style):
             # slow because instrumented?  second opinion on the plain build with a larger budget
             p = CaseServer(plain_exe, wall_timeout=200)
             try:
+                import time
+                t0 = time.time()
                 p.case("n=%d style=%s budget=%d" % (npop, style, b_plain), text)
+                dt = time.time() - t0
+                part.count("second_opinions_" + ("under_1s" if dt < 1 else "1_to_3s" if dt < 3 else "3_to_6s" if dt < 6 else "over_6s"))
+                if dt >= 3:
+                    part.sample({"slow_on_plain_build_s": round(dt, 1), "event": text.split("\n")[4:8], "n": npop}, cap=6)
                 part.inconclusive.append({"why": "over budget under ASan, within budget on the plain build", "sig": sig})
                 part.count("slow_but_terminating")
                 return
